@@ -19,6 +19,10 @@ def minByKeySnd : List (Nat × Nat) → Option (Nat × Nat)
 list has at most one entry per key; the look-up returns the first) -/
 def hmGet (m : List (Nat × List Nat)) (k : Nat) : Option (List Nat) := (m.find? (fun e => e.1 == k)).map (·.2)
 
+/-- `map.insert(k, v)` (the old value, if any, is replaced; the returned old value is not used by the translated code) -/
+def hmInsert (m : List (Nat × List Nat)) (k : Nat) (v : List Nat) : List (Nat × List Nat) :=
+  (k, v) :: m.filter (fun e => !(e.1 == k))
+
 /-- `itertools::Itertools::chunks(n)` on the items `l`: consecutive groups of `n` items, the last one possibly shorter
 (`n = 0` panics in itertools: `assert!(size != 0)`) -/
 def itChunksGo {α : Type} (n : Nat) : Nat → List α → List (List α)
